@@ -8,6 +8,8 @@ over the resulting path set (events in order, branch literals, outcome provenanc
 structural induction over the grammar (hypothesis = the stub contract) the local facts give the
 ordered-choice semantics for every grammar and every input.
 """
+import re
+
 from engine import facts as F
 from engine import load
 from engine import sx
@@ -21,6 +23,11 @@ INLINE = ("fcppt::optional::", "fcppt::either::", "fcppt::variant::", "fcppt::co
           "fcppt::parse::detail::check_bad", "fcppt::io::get", "fcppt::parse::skipper::epsilon::skip", "fcppt::parse::get_char_error", "fcppt::parse::detail::expected")
 PURE = ("fcppt::parse::detail::make_alternative", "fcppt::parse::detail::sequence_result", "fcppt::parse::error::get",
         "fcppt::parse::basic_char_set::chars", "fcppt::container::contains", "fcppt::parse::detail::flatten_tuples")
+
+
+# leaf parsers that stay opaque events when a derived parser (int_, uint, float_) is checked against its grammar
+LEAF_PARSERS = ("fcppt::parse::basic_literal::parse", "fcppt::parse::basic_char_set::parse", "fcppt::parse::basic_char::parse",
+                "fcppt::parse::basic_string::parse", "fcppt::parse::separator::parse")
 
 
 def hook_is_fatal(it, recv, args, d, unit, n):
@@ -60,6 +67,8 @@ class PV:
                 obj = sx.show(e[1][0])
                 sk = sx.show(e[1][-1]) if len(e[1]) >= 3 else ""
                 self.tok.append(("SUB", i, obj.replace("this.", ""), sk))
+            elif name.split("<")[0] in LEAF_PARSERS:
+                self.tok.append(("SUB", i, sx.show(e[1][0]), sx.show(e[1][-1]) if len(e[1]) >= 3 else ""))
             elif short == "get_char" or name.startswith("fcppt::parse::basic_stream::get_char"):
                 self.tok.append(("GETCH", i))
             elif short == "operator()" and e[1] and "convert_" in sx.show(e[1][0]):
@@ -626,6 +635,262 @@ def rule_compositions(cx):
             cx.rep.ok("COMP-R", key, F.primary_site(fn), F.describe(fn)[:200], how="composition")
 
 
+# ------------------------------------------------------------------------------------------------
+# DER: derived parsers against their documented grammar
+
+class RefMismatch(Exception):
+    pass
+
+
+class RefTrunc(Exception):
+    pass
+
+
+def g_leaf(name, pred=None):
+    return ("leaf", name, pred or (lambda obj, name=name: obj == name or obj.endswith("." + name)))
+
+
+def g_seq(*gs):
+    g = gs[0]
+    for h in gs[1:]:
+        g = ("seq", g, h)
+    return g
+
+
+def g_plus(a):
+    return ("seq", a, ("rep", a))
+
+
+EPS = "EPSILON"
+
+
+class Ref:
+    """The documented PEG semantics as an executable reference, driven by the answers of ONE implementation path:
+    the k-th sub-parse / skip the reference performs must be the k-th one of the path (same object, same skipper),
+    and it gets the success / fatal answer the path decided for it."""
+
+    def __init__(self, pv, root_is_epsilon):
+        self.pv = pv
+        self.root_eps = root_is_epsilon
+        self.evs = [t for t in pv.tok if t[0] in ("SUB", "SKIP")]
+        self.i = 0
+        self.pos = 0
+
+    def _sk(self, txt):
+        # with skipper::epsilon as the root skipper, `_skipper` and a fresh epsilon{} are the same skipper
+        return EPS if "epsilon" in txt or (self.root_eps and txt == "_skipper") else txt
+
+    def step(self, kind, what, pred, sk):
+        if self.i >= len(self.evs):
+            if self.pv.truncated():
+                raise RefTrunc()
+            raise RefMismatch("the documented grammar continues with %s %s but the implementation performs no further step" % (kind, what))
+        t = self.evs[self.i]
+        if t[0] != kind:
+            raise RefMismatch("step %d should be %s %s but the implementation performs %s %s" % (self.i + 1, kind, what, t[0], t[2]))
+        if kind == "SUB":
+            if not pred(t[2]):
+                raise RefMismatch("step %d should parse %s but the implementation parses %s" % (self.i + 1, what, t[2]))
+            if self._sk(t[3]) != self._sk(sk):
+                raise RefMismatch("step %d parses %s with skipper %s, the documented grammar runs it with %s" % (self.i + 1, what, t[3], sk))
+        elif self._sk(t[2]) != self._sk(sk):
+            raise RefMismatch("step %d skips with %s instead of %s" % (self.i + 1, t[2], sk))
+        self.i += 1
+        self.pos = self.i
+        ok = self.pv.ok(t[1])
+        if ok is None:
+            if self.i == len(self.evs):
+                return t[1], None     # result returned unexamined: passthrough
+            raise RefMismatch("the result of step %d (%s %s) is not examined" % (self.i, kind, what))
+        return t[1], ok
+
+    def fatal(self, src):
+        if isinstance(src, tuple):
+            return self.fatal(src[1]) or self.fatal(src[2])
+        f = self.pv.fatal(src)
+        if f is None:
+            raise RefMismatch("the documented outcome depends on whether the failure of event #%d is fatal, which the implementation never examines" % src)
+        return f
+
+    def skip(self, sk):
+        if sk == EPS or self.root_eps:
+            return ("ok",)   # skipper::epsilon consumes nothing and always succeeds: no step
+        ev, ok = self.step("SKIP", sk, None, sk)
+        if ok is None:
+            return ("pass", ev)
+        return ("ok",) if ok else ("fail", ev)
+
+    def run(self, g, sk):
+        k = g[0]
+        if k == "leaf":
+            ev, ok = self.step("SUB", g[1], g[2], sk)
+            if ok is None:
+                return ("pass", ev)
+            return ("ok",) if ok else ("fail", ev)
+        if k == "seq":
+            r = self.run(g[1], sk)
+            if r[0] != "ok":
+                return r
+            r = self.skip(sk)
+            if r[0] != "ok":
+                return r
+            return self.run(g[2], sk)
+        if k == "lex":
+            return self.run(g[1], EPS)
+        if k == "opt":
+            pos = self.pos
+            r = self.run(g[1], sk)
+            if r[0] == "pass":
+                raise RefMismatch("an optional sub-parser's result is returned unexamined")
+            if r[0] == "ok":
+                return r
+            self.pos = pos
+            return r if self.fatal(r[1]) else ("ok",)
+        if k == "alt":
+            pos = self.pos
+            l = self.run(g[1], sk)
+            if l[0] == "pass":
+                raise RefMismatch("an alternative's left result is returned unexamined")
+            if l[0] == "ok" or self.fatal(l[1]):
+                return l
+            self.pos = pos
+            r = self.run(g[2], sk)
+            if r[0] in ("ok", "pass"):
+                return r
+            return ("fail", ("alt", l[1], r[1]))
+        if k == "rep":
+            pos = self.pos
+            while True:
+                r = self.run(g[1], sk)
+                if r[0] == "ok":
+                    r = self.skip(sk)
+                if r[0] == "pass":
+                    raise RefMismatch("a repetition element's result is returned unexamined")
+                if r[0] != "ok":
+                    self.pos = pos
+                    return r if self.fatal(r[1]) else ("ok",)
+                pos = self.pos
+        raise ValueError(g)
+
+
+def impl_position(pv):
+    cnt = cur = 0
+    saved = {}
+    for t in pv.tok:
+        if t[0] in ("SUB", "SKIP"):
+            cnt += 1
+            cur = cnt
+        elif t[0] == "SAVE":
+            saved[t[1]] = cur
+        elif t[0] == "RESTORE":
+            if t[1] not in saved:
+                return None
+            cur = saved[t[1]]
+    return cur
+
+
+def digits_pred(obj):
+    return "digits" in obj
+
+
+def lit_pred(code):
+    return lambda obj: "basic_literal" in obj and re.search(r"\b%d\b" % code, obj) is not None
+
+
+DIG = ("leaf", "digits", digits_pred)
+MINUS = ("leaf", "literal('-')", lit_pred(45))
+DOT = ("leaf", "literal('.')", lit_pred(46))
+
+# grammar of each derived parser, from its documentation (\brief / "Equivalent to" in *_decl.hpp) and the property text
+DERIVED = [
+    ("DER-PLUS", "fcppt::parse::repetition_plus::parse", g_plus(g_leaf("parser_")), False,
+     "+p = p >> *p (at least one element, then greedy repetition, skipper between all elements)"),
+    ("DER-SEP", "fcppt::parse::separator::parse",
+     ("opt", g_seq(g_leaf("inner_"), ("rep", g_seq(g_leaf("sep_"), g_leaf("inner_"))))), False,
+     "separator{inner,sep} = -(inner >> *(sep >> inner))"),
+    ("DER-LIST", "fcppt::parse::list::parse",
+     g_seq(g_leaf("start_"), ("alt", g_leaf("end_"), g_seq(g_leaf("separator_"), g_leaf("end_")))), False,
+     "list = start >> (end | (separator{inner,sep} >> end))"),
+    ("DER-INT", "fcppt::parse::int_::parse", ("lex", g_seq(("opt", MINUS), g_plus(DIG))), True,
+     "int_ = lexeme[-'-' >> +digits], then conversion"),
+    ("DER-UINT", "fcppt::parse::uint::parse", ("lex", g_plus(DIG)), True, "uint = lexeme[+digits], then conversion"),
+    ("DER-FLOAT", "fcppt::parse::float_::parse", ("lex", g_seq(("opt", MINUS), g_plus(DIG), DOT, g_plus(DIG))), True,
+     "float_ = lexeme[-'-' >> +digits >> '.' >> +digits], then conversion"),
+]
+
+DER_INLINE = ("fcppt::parse::operator>>", "fcppt::parse::operator*", "fcppt::parse::operator-", "fcppt::parse::operator|",
+              "fcppt::parse::operator!", "fcppt::parse::sequence::", "fcppt::parse::repetition::", "fcppt::parse::optional::",
+              "fcppt::parse::alternative::", "fcppt::parse::lexeme::", "fcppt::parse::make_lexeme", "fcppt::parse::construct",
+              "fcppt::parse::convert::", "fcppt::parse::convert_const::", "fcppt::parse::make_convert", "fcppt::parse::deref",
+              "fcppt::make_cref", "fcppt::reference::", "fcppt::parse::repetition_plus::", "fcppt::parse::make_literal",
+              "fcppt::parse::literal", "fcppt::parse::make_fatal", "fcppt::parse::fatal::", "fcppt::parse::make_ignore",
+              "fcppt::parse::ignore::")
+
+
+def rule_derived(cx):
+    cfg = sx.Config(inline_prefixes=INLINE + DER_INLINE, pure=PURE + ("fcppt::parse::digits", "fcppt::detail::char_literal"), hooks=cx.cfg.hooks, loop_bound=2,
+                    record_prefixes=("fcppt::parse::",))
+    dcx = Ctx(cx.rep, cx.db, cfg)
+    for rid, qn, grammar, post_may_fail, text in DERIVED:
+        seen = {}
+        for fn in cx.db.fns(qn):
+            ta = fn.get("targs") or []
+            rt = fn.get("rec_targs") or []
+            if any("fcppt::parse::" in x and x != "fcppt::parse::skipper::epsilon" for x in list(ta) + list(rt)):
+                continue
+            seen.setdefault((F.primary_site(fn), tuple(ta), tuple(rt)), fn)
+        for fn in seen.values():
+            ta = fn.get("targs") or []
+            root_eps = any("epsilon" in x for x in ta)
+            pvs = dcx.paths(fn)
+            if pvs is None:
+                continue
+            key = "%s|%s" % (rid, inst_key(fn))
+            bad = None
+            nsteps = 0
+            for pv in pvs:
+                ref = Ref(pv, root_eps)
+                try:
+                    r = ref.run(grammar, "_skipper")
+                except RefTrunc:
+                    nsteps = max(nsteps, ref.i)
+                    continue
+                except RefMismatch as e:
+                    bad = (str(e), pv)
+                    break
+                nsteps = max(nsteps, ref.i)
+                if ref.i != len(ref.evs):
+                    t = ref.evs[ref.i]
+                    bad = ("the documented grammar is finished after %d steps but the implementation goes on with %s %s" % (ref.i, t[0], t[2]), pv)
+                    break
+                if pv.truncated():
+                    continue
+                got = pv.succeeded()
+                if r[0] == "pass":
+                    if pv.outcome()[0] != "passthrough" and not post_may_fail:
+                        pass
+                    continue
+                if r[0] == "ok":
+                    if got is not True and not (post_may_fail and got is False):
+                        bad = ("the documented grammar succeeds on this path, the implementation %s" % ("fails" if got is False else "returns an undetermined result"), pv)
+                        break
+                    ip = impl_position(pv)
+                    if got is True and ip is not None and ip != ref.pos:
+                        bad = ("on success the input position is the one after step %d, the documented grammar ends after step %d" % (ip, ref.pos), pv)
+                        break
+                else:
+                    if got is not False:
+                        bad = ("the documented grammar fails on this path (error of event #%s), the implementation %s" % (r[1], "succeeds" if got else "returns an undetermined result"), pv)
+                        break
+            if not nsteps and not bad:
+                bad = ("no sub-parse step was matched", pvs[0] if pvs else None)
+            if bad:
+                cx.rep.fail(rid, key, F.primary_site(fn), F.describe(fn)[:200], why="%s: %s" % (text, bad[0]),
+                            detail={"path": bad[1].p.show() if bad[1] else None})
+            else:
+                cx.rep.ok(rid, key, F.primary_site(fn), F.describe(fn)[:200], how="reference-equal", detail={"paths": len(pvs), "steps": nsteps})
+
+
 def rule_entry(cx):
     # consume_remaining: ENT-3  (table: failure => failure; success & rest unreadable => failure;
     # success & rest empty => success(value); success & rest non-empty => failure)
@@ -734,7 +999,9 @@ def main(rep, tier, only):
         ("WRAP-3", "failure passes through with its fatal flag", 6),
         ("ENT-1", "phrase_parse: SKIP first", 1), ("ENT-3", "string entry points: success iff parser succeeded and input consumed", 1),
         ("COMP-R", "recursive = construct<recursive<R>>(cref(parser_)) parsed once with the caller's state and skipper", 2),
-        ("ERR-1", "operator+ on errors: fatal iff either operand is fatal", 1)]:
+        ("ERR-1", "operator+ on errors: fatal iff either operand is fatal", 1)] + [
+            (rid, "%s: every path of the implementation (sub-parsers opaque, combinators inlined) performs exactly the sub-parse / skip steps of the documented grammar, with the same skipper, outcome and final position" % text, 2)
+            for rid, qn, g, pm, text in DERIVED]:
         rep.rule(rid, text, floor=floor)
     rule_alternative(cx)
     rule_sequence(cx)
@@ -742,6 +1009,7 @@ def main(rep, tier, only):
     rule_optional_not_fatal_lexeme(cx)
     rule_wrappers(cx)
     rule_compositions(cx)
+    rule_derived(cx)
     rule_entry(cx)
     rule_err(cx)
     rep.explanation = ("Protocol conformance of each combinator relative to opaque sub-parsers, for Ch in {char, wchar_t} and "
@@ -751,5 +1019,5 @@ def main(rep, tier, only):
     rep.trusted = ["clang 14 front end", "tagged-union model of either/optional (checked by C04)", "the induction argument of DESIGN.md §2",
                    "std::basic_istream tellg/seekg semantics behind get_position/set_position (C12)"]
     rep.assumptions = ["numeric value of int_/uint/float_ and error message text are not decided",
-                       "derived combinators (repetition_plus, separator, list) are compositions of the checked ones; their construction is not re-verified in this round",
+                       "derived parsers (repetition_plus, separator, list, int_, uint, float_) are checked step by step against their documented grammar (DER-*); the element values they assemble are not",
                        "leaf parsers' character decisions are covered by C12/LEAF rules only for get_char location order"]
